@@ -44,6 +44,15 @@ def literal_seq(t):
     return None
 
 
+def collapse_refs(t):
+    """*&x -> x everywhere (values that travelled through closure captures)"""
+    if not isinstance(t, tuple) or not t:
+        return t
+    if t[0] == "deref" and isinstance(t[1], tuple) and t[1] and t[1][0] == "ref":
+        return collapse_refs(t[1][2])
+    return tuple(collapse_refs(x) for x in t)
+
+
 def struct_view(ft, cell):
     """{field: value} of the A5Cell handed to serialize, whether it is built in one literal or built once and then
     updated field by field (a loop-carried struct whose `s` is assigned per iteration)"""
@@ -84,6 +93,10 @@ def run(ctx):
                     return True
         return False
     nbuilt = 0
+
+    class _Site:
+        pass
+    sites = []
     for c in sers:
         cell = peel(c.args[0])
         if decoded(c.args[0]):
@@ -94,6 +107,40 @@ def run(ctx):
         if f is None:
             run.bad("C07.T1", "children-cell", "serialize argument is %s - unrecognised idiom" % fmt(cell), where(c.span))
             continue
+        st_ = _Site()
+        st_.f, st_.block, st_.span, st_.gens, st_.ads = f, c.block, c.span, None, None
+        sites.append(st_)
+    if not sites:
+        # the children may be produced by an iterator pipeline (iter / flat_map / map .. collect) instead of a loop nest:
+        # read the pipeline symbolically - one generator per traversal, the collected item as a term over them
+        from ..query import pipe_item
+        for c in ft.calls():
+            if c.callee and c.callee.endswith("::collect") and c.args:
+                r = pipe_item(facts, ft, c.args[0])
+                if r is None:
+                    continue
+                it = r[0]
+                if it[0] == "call" and it[1] == SER:
+                    fz = struct_view(ft, peel(it[2][0]))
+                    if fz is not None:
+                        fz = {k_: collapse_refs(v_) for k_, v_ in fz.items()}
+                        st_ = _Site()
+                        st_.f, st_.block, st_.span, st_.ads = fz, c.block, c.span, r[2]
+                        st_.gens = {g: collapse_refs(src_) for g, src_ in r[1]}
+                        sites.append(st_)
+
+    class _PL:          # a generator of a pipeline, presented like a loop: item = its symbol, source = what it walks
+        pass
+    for site in sites:
+        f = site.f
+        c = site
+        lps_here = list(lps)
+        if site.gens:
+            for g, src_ in site.gens.items():
+                pl = _PL()
+                pl.item, pl.source, pl.next, pl.counter = g, src_, [True], False
+                pl.own, pl.body, pl.head = set(), set(), None
+                lps_here.append(pl)
         nbuilt += 1
         T = f["resolution"]
         od = option_default(ft, T)
@@ -119,7 +166,7 @@ def run(ctx):
         # T2 origin / segment fan-out
         for fld, want_full in (("origin_id", 12), ("segment", 5)):
             v = peel(f[fld])
-            lp = [l for l in lps if l.item is not None and strip_site(l.item) == strip_site(v)]
+            lp = [l for l in lps_here if l.item is not None and strip_site(l.item) == strip_site(v)]
             ok = False
             why = "%s = %s is not an element of the fan-out set" % (fld, fmt(v))
             if lp and lp[0].source is not None:
@@ -158,7 +205,7 @@ def run(ctx):
                     got = {}
                     for fld, want_full in (("origin_id", 12), ("segment", 5)):
                         v = peel(f[fld])
-                        lp = [l for l in lps if l.item is not None and strip_site(l.item) == strip_site(v)]
+                        lp = [l for l in lps_here if l.item is not None and strip_site(l.item) == strip_site(v)]
                         if not lp or lp[0].source is None:
                             continue
                         src = peel(lp[0].source)
@@ -179,12 +226,12 @@ def run(ctx):
         # T3/T4 s
         s_t = f["s"]
         co, k = linear(s_t, through_casts=True)
-        idx = [a for a in co if a[0] == "payload" and a[2][0] == "call" and a[2][1].endswith("::next")]
+        idx = [a for a in co if (a[0] == "payload" and a[2][0] == "call" and a[2][1].endswith("::next")) or a[0] == "gen"]
         base = [a for a in co if a not in idx]
         ok34 = k == 0 and len(idx) == 1 and co[idx[0]] == 1 and len(base) == 1 and co[base[0]] == 1
         why = "s = %s" % fmt(s_t)
         if ok34:
-            ilp = [l for l in lps if l.item is not None and strip_site(l.item) == idx[0]]
+            ilp = [l for l in lps_here if l.item is not None and strip_site(l.item) == idx[0]]
             cnt = None
             if ilp and ilp[0].source is not None:
                 src = peel(ilp[0].source)
@@ -239,11 +286,17 @@ def run(ctx):
                     run.inst("C07.T3", "children-depth", okd, "d = %s (must be target - max(current, %d))" % (fmt(D1), first - 1), where(c.span))
         run.inst("C07.T4", "children-contiguous", ok34, why + " (must be base + i for i in 0..count)", where(c.span))
         # one serialize + push per innermost iteration
-        pushes = [p for p in ft.calls() if p.callee and p.callee.endswith("Vec::push") and any(x[0] == "call" and x[1] == SER for x in walk(p.args[1]))]
-        inner = [l for l in lps if c.block in l.own]
-        okp = len(pushes) == 1 and inner and every_iteration(ft, inner[0], c.block) and pushes[0].block in inner[0].own
-        allp = [p for p in ft.calls() if p.callee and (p.callee.endswith("Vec::push") or p.callee.endswith("::extend") or p.callee.endswith("Vec::insert"))]
-        run.inst("C07.T4", "children-one-per-triple", bool(okp) and len(allp) == 1, "exactly one serialize+push per (face, segment, i); pushes in the function: %d" % len(allp), where(c.span))
+        if site.gens:
+            # pipeline form: only element-wise stages (no filter / skip / take / step_by / chain), three traversals
+            pure = all(a_ in ("iter", "into_iter", "copied", "cloned", "by_ref", "range", "map", "flat_map") for a_ in site.ads)
+            run.inst("C07.T4", "children-one-per-triple", pure and len(site.gens) == 3,
+                     "the pipeline yields exactly one serialized cell per (face, segment, i): stages %s" % site.ads, where(c.span))
+        else:
+            pushes = [p for p in ft.calls() if p.callee and p.callee.endswith("Vec::push") and any(x[0] == "call" and x[1] == SER for x in walk(p.args[1]))]
+            inner = [l for l in lps if c.block in l.own]
+            okp = len(pushes) == 1 and inner and every_iteration(ft, inner[0], c.block) and pushes[0].block in inner[0].own
+            allp = [p for p in ft.calls() if p.callee and (p.callee.endswith("Vec::push") or p.callee.endswith("::extend") or p.callee.endswith("Vec::insert"))]
+            run.inst("C07.T4", "children-one-per-triple", bool(okp) and len(allp) == 1, "exactly one serialize+push per (face, segment, i); pushes in the function: %d" % len(allp), where(c.span))
     # T5: equal resolution returns the cell itself; target below current is an error
     rets = returns_under(ft, {})
     same = [t for t in rets if is_variant(t, "Ok") and t[3][0][0] == "agg" and t[3][0][1] == "vec"]
